@@ -16,7 +16,11 @@ func (p *watPrinter) printFuncs() error {
 		return nil
 	}
 	for _, fn := range p.m.Funcs {
-		fmt.Fprintf(p.w, "%s(func %s", p.indent, watPrinter_identOrIndex(fn.Name))
+		if fn.Name != "" {
+			fmt.Fprintf(p.w, "%s(func %s", p.indent, watPrinter_identOrIndex(fn.Name))
+		} else {
+			fmt.Fprintf(p.w, "%s(func", p.indent) // anonymous function
+		}
 
 		if fn.ExportName != "" {
 			fmt.Fprintf(p.w, " (export %q)", fn.ExportName)
